@@ -93,7 +93,7 @@ theorem listDuplicates_nil {seq : List Key} (h : listDuplicates seq = []) : seq.
 def accLoop : List S2 → Nat → Rat → Rat → Except MErr (Rat × Rat)
   | [], _, r, phi => .ok (r, phi)
   | c :: cs, k, r, phi =>
-    if k > 0 ∧ c.phi ≠ phi then .error .circuit else accLoop cs (k + 1) (r + c.r) c.phi
+    if k > 0 ∧ c.phi ≠ phi then .error .circuit else accLoop cs (k + 1) (r + c.effR) c.phi
 
 /-- popping the positions of `k` in descending order removes exactly the commands with key `k` and
 accumulates them from the last to the first -/
@@ -126,7 +126,7 @@ theorem popLoop_spec (k : Key) (xs : List S2) :
           rw [List.eraseIdx_append_of_length_le (Nat.le_refl _)]
           simp
         rw [her]
-        exact ih tail (kc + 1) (r + y.r) y.phi
+        exact ih tail (kc + 1) (r + y.effR) y.phi
     · have hp : positions k [y.key] = [] := by simp [positions, hy]
       simp only [hp, List.map_nil, List.reverse_nil, List.nil_append, List.filter_cons, hy,
         decide_false, Bool.false_eq_true, if_false, List.filter_nil, ne_eq, not_false_eq_true,
@@ -169,7 +169,7 @@ theorem insert_first (k : Key) (m : S2) (xs : List S2) (h : k ∈ xs.map S2.key)
 theorem mergeOne_spec (B : List S2) (k : Key) (h : k ∈ B.map S2.key) :
     mergeOne B (k, positions k (B.map S2.key)) =
       match accLoop (B.filter (fun c => c.key = k)).reverse 0 0 0 with
-      | .ok (r, phi) => .ok (mergeAt k ⟨k.1, k.2, r, phi⟩ B)
+      | .ok (r, phi) => .ok (mergeAt k ⟨k.1, k.2, r, phi, false⟩ B)
       | .error e => .error e := by
   have := popLoop_spec k B [] 0 0 0
   simp only [List.append_nil] at this
@@ -185,7 +185,7 @@ theorem mergeOne_spec (B : List S2) (k : Key) (h : k ∈ B.map S2.key) :
 
 theorem accLoop_ok {ms : List S2} {kc : Nat} {r phi r' phi' : Rat}
     (h : accLoop ms kc r phi = .ok (r', phi')) :
-    r' = ms.foldl (fun acc c => acc + c.r) r ∧ (∀ c ∈ ms, c.phi = phi') ∧ (ms = [] → phi' = phi) ∧
+    r' = ms.foldl (fun acc c => acc + c.effR) r ∧ (∀ c ∈ ms, c.phi = phi') ∧ (ms = [] → phi' = phi) ∧
       (kc > 0 → phi' = phi) := by
   induction ms generalizing kc r phi with
   | nil =>
@@ -229,7 +229,7 @@ theorem accLoop_error {ms : List S2} {kc : Nat} {r phi : Rat} {e : MErr}
 /-! ## invariants of one merge -/
 
 /-- the summed squeezing of the commands on pair `k` (added from the last command to the first, as the loop does) -/
-def sumR (k : Key) (B : List S2) : Rat := (B.filter (fun c => c.key = k)).foldr (fun c acc => acc + c.r) 0
+def sumR (k : Key) (B : List S2) : Rat := (B.filter (fun c => c.key = k)).foldr (fun c acc => acc + c.effR) 0
 
 theorem firstOcc_filter (p : Key → Bool) (l : List Key) : firstOcc (l.filter p) = (firstOcc l).filter p := by
   induction l with
@@ -287,7 +287,7 @@ theorem filter_other_filter_ne (k k' : Key) (hk : k' ≠ k) (xs : List S2) :
   · simp [h]
 
 theorem mergeAt_sum_self (k : Key) (m : S2) (hm : m.key = k) (B : List S2) (h : k ∈ B.map S2.key) :
-    sumR k (mergeAt k m B) = 0 + m.r := by
+    sumR k (mergeAt k m B) = 0 + m.effR := by
   induction B with
   | nil => simp at h
   | cons x xs ih =>
@@ -440,15 +440,15 @@ theorem mergeLoop_spec : ∀ (fuel : Nat) (B : List S2), B.length ≤ fuel →
         obtain ⟨r', phi'⟩ := v
         simp only
         obtain ⟨hr, hphi, _, _⟩ := accLoop_ok hacc
-        have hlen := mergeAt_length k ⟨k.1, k.2, r', phi'⟩ B hk
-        have hB' : (mergeAt k ⟨k.1, k.2, r', phi'⟩ B).length ≤ fuel := by omega
-        have hmk : (⟨k.1, k.2, r', phi'⟩ : S2).key = k := rfl
-        obtain ⟨m1, m2, m3⟩ := mergeAt_mem k ⟨k.1, k.2, r', phi'⟩ B
+        have hlen := mergeAt_length k ⟨k.1, k.2, r', phi', false⟩ B hk
+        have hB' : (mergeAt k ⟨k.1, k.2, r', phi', false⟩ B).length ≤ fuel := by omega
+        have hmk : (⟨k.1, k.2, r', phi', false⟩ : S2).key = k := rfl
+        obtain ⟨m1, m2, m3⟩ := mergeAt_mem k ⟨k.1, k.2, r', phi', false⟩ B
         -- a command of the group exists, and all of them carry phi'
         have hex : ∃ c0 ∈ B, c0.key = k ∧ c0.phi = phi' := by
           obtain ⟨c0, hc0, hck⟩ := List.mem_map.1 hk
           refine ⟨c0, hc0, hck, hphi c0 (List.mem_reverse.2 (List.mem_filter.2 ⟨hc0, by simpa using hck⟩))⟩
-        have hsum : ∀ k', sumR k' (mergeAt k ⟨k.1, k.2, r', phi'⟩ B) = sumR k' B := by
+        have hsum : ∀ k', sumR k' (mergeAt k ⟨k.1, k.2, r', phi', false⟩ B) = sumR k' B := by
           intro k'
           by_cases hkk : k' = k
           · subst hkk
@@ -458,14 +458,14 @@ theorem mergeLoop_spec : ∀ (fuel : Nat) (B : List S2), B.length ≤ fuel →
             exact Rat.zero_add _
           · exact mergeAt_sum_other k k' hkk _ hmk B
         have := ih _ hB'
-        cases hrec : mergeLoop fuel (mergeAt k ⟨k.1, k.2, r', phi'⟩ B) with
+        cases hrec : mergeLoop fuel (mergeAt k ⟨k.1, k.2, r', phi', false⟩ B) with
         | error e =>
           rw [hrec] at this
           simp only at this ⊢
           obtain ⟨he, c, hc, d, hd, hkey, hne⟩ := this
           refine ⟨he, ?_⟩
           -- lift both commands back to the original list
-          have lift : ∀ x ∈ mergeAt k ⟨k.1, k.2, r', phi'⟩ B, ∃ x0 ∈ B, x0.key = x.key ∧ x0.phi = x.phi := by
+          have lift : ∀ x ∈ mergeAt k ⟨k.1, k.2, r', phi', false⟩ B, ∃ x0 ∈ B, x0.key = x.key ∧ x0.phi = x.phi := by
             intro x hx
             rcases m3 x hx with rfl | ⟨hxB, _⟩
             · obtain ⟨c0, hc0, hck, hcp⟩ := hex
@@ -489,7 +489,7 @@ theorem mergeLoop_spec : ∀ (fuel : Nat) (B : List S2), B.length ≤ fuel →
 
 /-- a list with one command per pair: each command's squeezing is its own -/
 theorem sumR_of_nodup {out : List S2} (h : (out.map S2.key).Nodup) {c : S2} (hc : c ∈ out) :
-    sumR c.key out = 0 + c.r := by
+    sumR c.key out = 0 + c.effR := by
   induction out with
   | nil => simp at hc
   | cons x xs ih =>
@@ -530,7 +530,7 @@ theorem mergeS2_spec (half : Nat) (B : List S2) :
       (B.length ≤ half → out = B) ∧
       (half < B.length →
         (out.map S2.key).Nodup ∧ out.map S2.key = firstOcc (B.map S2.key) ∧
-        (∀ c ∈ out, c.r = sumR c.key B) ∧ (∀ c ∈ out, ∀ d ∈ B, d.key = c.key → d.phi = c.phi))
+        (∀ c ∈ out, c.effR = sumR c.key B) ∧ (∀ c ∈ out, ∀ d ∈ B, d.key = c.key → d.phi = c.phi))
     | .error e => e = .circuit ∧ half < B.length ∧ ∃ c ∈ B, ∃ d ∈ B, c.key = d.key ∧ c.phi ≠ d.phi := by
   unfold mergeS2
   by_cases hlen : B.length > half
